@@ -723,6 +723,55 @@ Section PLAN2.
             destruct (c_asc c); now apply Z.leb_le.
     Qed.
 
+    (* round 8: the select UNDER the outermost one (what MainFinalizerPlanner.Process returns when ctx.CHFinalize is not set)
+       already evaluates to the reference answer; its five-column rows read back as the lines *)
+    Lemma log_plan2_inner :
+      exists req rows outs,
+        log_select q c = Some (final_select c req)
+        /\ eval re_match parse_float json_get hash_labels tie (to_sqldb c d) req = Some rows
+        /\ map row_out rows = map Some outs
+        /\ logql_sem3 re_match parse_float json_get hash_labels q c d outs.
+    Proof.
+      destruct plan_log2 as [p [m [swap [Hplan [sel [st' [cur' [Hproc Hs]]]]]]]].
+      destruct (ctx_names c Hctx) as [_ [_ [_ [_ [_ [Hfin Hl0]]]]]].
+      destruct Hs as [e_ts [e_fp [e_lab [e_str [e_val [w [T [src [out [keep [Hf [Hsrc [Hcs [Hstr [Hw [Hperm _]]]]]]]]]]]]]]]].
+      pose (sel_o := set_orderby [Ord (Id "timestamp_ns") (c_asc c)] sel).
+      pose (sel_l := if Z.eqb (c_limit c) 0 then sel_o else set_limit (Some (IntV (c_limit c))) sel_o).
+      assert (Hf' : flat5 sel_l (cols5 swap e_ts e_fp e_lab e_str e_val) w [Ord (Id "timestamp_ns") (c_asc c)]
+                          (if Z.eqb (c_limit c) 0 then None else Some (IntV (c_limit c)))).
+      { unfold sel_l, sel_o. destruct (c_limit c =? 0)%Z.
+        - eapply flat5_set_orderby. exact Hf.
+        - eapply flat5_set_limit. eapply flat5_set_orderby. exact Hf. }
+      assert (Hsrc' : A7 src_rows sel_l = Some (map src T)).
+      { unfold sel_l, sel_o. destruct (c_limit c =? 0)%Z; rewrite ?src_rows_set_limit, src_rows_set_orderby; exact Hsrc. }
+      destruct (es_five_sorted re_match parse_float json_get hash_labels tie tie_perm c d sel_l swap e_ts e_fp e_lab e_str e_val w T src out keep
+                  Hf' Hsrc' Hcs (A7 wsem_cond w T src out keep swap Hw)) as [ys [Hys Hes]].
+      set (pl := limited c (isort (lts_leb c) ys)) in *.
+      assert (Hx : exists outs, outs = map mkout2 pl /\ Permutation (map mkout2 pl) outs)
+        by (eexists; split; [reflexivity|apply Permutation_refl]).
+      destruct Hx as [outs [Eouts Hpo]].
+      exists sel_l, (map (st_row swap) pl), outs. split; [|split; [exact Hes|split]].
+      - unfold log_select. rewrite Hplan. cbn [process]. rewrite Hproc. cbn [bind]. rewrite Hfin. cbn [negb map].
+        unfold final_select, sel_l, sel_o. destruct (c_limit c =? 0)%Z; reflexivity.
+      - rewrite Eouts, !map_map. apply map_ext. intros t. destruct swap; reflexivity.
+      - assert (Hlive : Permutation ys (live re_match parse_float json_get hash_labels c d ms ppl)).
+        { eapply Permutation_trans; [exact Hys|exact Hperm]. }
+        unfold logql_sem3. unfold q. rewrite log_rows3_live. unfold pl, limited in Hpo.
+        destruct (c_limit c =? 0)%Z eqn:El.
+        + eapply Permutation_trans; [apply Permutation_sym, Hpo|]. apply Permutation_map.
+          eapply Permutation_trans; [apply isort_perm|exact Hlive].
+        + destruct (limit_topk (lts_leb c) lts_leb_total lts_leb_trans ys (Z.to_nat (c_limit c))) as [rest [Hperm' [Hlen' Hord]]].
+          exists (map mkout2 rest). split; [|split].
+          * eapply Permutation_trans; [apply Permutation_map, Permutation_sym, Hlive|].
+            eapply Permutation_trans; [apply Permutation_map, Hperm'|]. rewrite map_app.
+            apply Permutation_app_tail. exact Hpo.
+          * rewrite <- (Permutation_length Hpo), !map_length, Hlen', (Permutation_length Hlive). lia.
+          * intros r o Hr Ho. apply (Permutation_in _ (Permutation_sym Hpo)) in Hr.
+            apply in_map_iff in Hr. destruct Hr as [x [<- Hx]]. apply in_map_iff in Ho. destruct Ho as [y [<- Hy]].
+            specialize (Hord x y Hx Hy). unfold lts_leb, ts_leb in Hord. cbn [mkout2 o_ts].
+            destruct (c_asc c); now apply Z.leb_le.
+    Qed.
+
     (* Plan(script, false): every line the pipeline lets through, whatever ctx.Limit says, in timestamp order *)
     Theorem bp_plan2_correct :
       exists sel rows outs,
